@@ -114,7 +114,8 @@ type hworld struct {
 	descs   []*onet.TreeMarshal // see mkWorld
 	bogus   *network.ServerIdentity
 	nmark   int
-	failed  string
+	stuck   string // the operation did not complete within the (generous) deadlines: an observation
+	note    string
 }
 
 func mkWorld(in input) *hworld {
@@ -297,7 +298,7 @@ func (w *hworld) process(env *network.Envelope) (outcome string) {
 				return "Blocked"
 			}
 			if time.Now().After(deadline) {
-				w.failed = "handler neither returned nor is waiting for pendingTreeLock"
+				w.stuck = "handler neither returned nor is waiting for pendingTreeLock"
 				return "Blocked"
 			}
 		}
@@ -306,7 +307,7 @@ func (w *hworld) process(env *network.Envelope) (outcome string) {
 	case r := <-done:
 		return r
 	case <-time.After(20 * time.Second):
-		w.failed = "handler did not return although pendingTreeLock was free"
+		w.stuck = "handler did not return although pendingTreeLock was free"
 		return "Blocked"
 	}
 }
@@ -333,7 +334,14 @@ func (w *hworld) exec(o hop) (outcome string, nilFirst bool) {
 	from := w.p.ServerIdentity
 	switch o.Op {
 	case "lreg":
-		w.ov.RegisterTree(w.trees[o.Tree])
+		func() {
+			defer func() {
+				if e := recover(); e != nil {
+					outcome = "Crashed"
+				}
+			}()
+			w.ov.RegisterTree(w.trees[o.Tree])
+		}()
 	case "lcreate":
 		func() {
 			defer func() {
@@ -342,7 +350,9 @@ func (w *hworld) exec(o hop) (outcome string, nilFirst bool) {
 				}
 			}()
 			if _, err := w.ov.CreateProtocol(histName, w.trees[o.Tree], onet.NilServiceID); err != nil {
-				w.failed = "create: " + err.Error()
+				// the model creates the instance: a refusal is reported like a failed operation
+				outcome = "Crashed"
+				w.note = "create: " + err.Error()
 			}
 		}()
 	case "ldone":
@@ -405,7 +415,7 @@ func (w *hworld) exec(o hop) (outcome string, nilFirst bool) {
 	case "pros":
 		outcome = w.process(&network.Envelope{ServerIdentity: from, MsgType: onet.SendRosterMsgID, Msg: w.rosters[o.Ros]})
 	default:
-		w.failed = "unknown op " + o.Op
+		panic("unknown op " + o.Op) // an error of the generator, not of the implementation
 	}
 	return
 }
@@ -484,14 +494,14 @@ func (w *hworld) quiesce() {
 	deadline := time.Now().Add(10 * time.Second)
 	for w.sched.Count("overlay.flushDone") < w.sched.Count("overlay.treeSet") {
 		if time.Now().After(deadline) {
-			w.failed = "flush goroutine did not finish"
+			w.stuck = "flush goroutine did not finish"
 			return
 		}
 		time.Sleep(200 * time.Microsecond)
 	}
 	w.nmark++
 	if _, err := w.x.Send(w.p.ServerIdentity, &Marker{N: w.nmark}); err != nil {
-		w.failed = "marker: " + err.Error()
+		w.stuck = "marker: " + err.Error()
 		return
 	}
 	for {
@@ -502,7 +512,7 @@ func (w *hworld) quiesce() {
 			return
 		}
 		if time.Now().After(deadline) {
-			w.failed = "marker did not arrive"
+			w.stuck = "marker did not arrive"
 			return
 		}
 		time.Sleep(200 * time.Microsecond)
@@ -528,10 +538,24 @@ func (w *hworld) outLit(m interface{}) string {
 	return fmt.Sprintf("(ORequestTree %d)", 999999)
 }
 
+// snapshot takes the snapshot on its own goroutine: if the server is wedged on one of the locks
+// the accessors need, the operation is reported as not completed with an empty snapshot.
 func (w *hworld) snapshot(outcome string) string {
+	res := make(chan string, 1)
+	go func() { res <- w.snapshot1(outcome) }()
+	select {
+	case s := <-res:
+		return s
+	case <-time.After(15 * time.Second):
+		w.stuck = "the accessors for the snapshot did not return"
+		return "(mkSnap [] [] true [] [] [] Blocked)"
+	}
+}
+
+func (w *hworld) snapshot1(outcome string) string {
 	var store []string
-	for i := 0; i < 3; i++ {
-		id := w.trees[i].ID
+	ids := []onet.TreeID{w.trees[0].ID, w.trees[1].ID, w.trees[2].ID, onet.TreeID(uuid.Nil)} // nothing is ever stored under the nil id
+	for _, id := range ids {
 		n := w.d.id(id)
 		switch w.ov.VerifTreeState(id) {
 		case 0:
@@ -540,7 +564,12 @@ func (w *hworld) snapshot(outcome string) string {
 			store = append(store, fmt.Sprintf("(%d, Some None)", n))
 		default:
 			t := w.ov.VerifC06Tree(id)
-			s, _ := w.d.tree(t, true)
+			s, links := w.d.tree(t, true)
+			if !links {
+				// parent links / roster pointers of the stored tree are inconsistent: there is no
+				// field for that in the snapshot, so the tree is reported under an impossible id
+				s = strings.Replace(s, "(mkTree ", "(mkTree 999999", 1)
+			}
 			store = append(store, fmt.Sprintf("(%d, Some (Some %s))", n, s))
 		}
 	}
@@ -594,12 +623,13 @@ func runHist(in input) lib.Case {
 	for _, o := range in.Ops {
 		cands := w.tagsFor(o)
 		oc, nilFirst := w.exec(o)
-		if w.failed != "" {
-			break
+		if w.stuck == "" {
+			w.quiesce()
 		}
-		w.quiesce()
-		if w.failed != "" {
-			break
+		if w.stuck != "" {
+			// the operation (or its flush / its messages) did not complete: that is what is observed
+			oc = "Blocked"
+			tags["stuck"] = true
 		}
 		w.keepTags(cands, oc, tags)
 		ops = append(ops, w.opLit(o, nilFirst))
@@ -624,11 +654,8 @@ func runHist(in input) lib.Case {
 	if in.Suite != "" && in.Suite != "Ed25519" {
 		class += "@" + in.Suite
 	}
-	if w.failed != "" {
-		if os.Getenv("VERIF_DEBUG") != "" {
-			fmt.Fprintln(os.Stderr, "hist discarded:", in.Name, w.failed, trace)
-		}
-		return lib.Case{Discard: true, Class: class, Obs: w.failed}
+	if w.stuck != "" && os.Getenv("VERIF_DEBUG") != "" {
+		fmt.Fprintln(os.Stderr, "hist stuck:", in.Name, w.stuck, trace)
 	}
 	coq := fmt.Sprintf("CHist %s %s", lib.List(ops), lib.List(snaps))
 	last := ""
@@ -638,7 +665,7 @@ func runHist(in input) lib.Case {
 			last = last[:600] + "..."
 		}
 	}
-	return lib.Case{Coq: coq, Class: class, Obs: map[string]interface{}{"trace": strings.Join(trace, " "), "last": last},
+	return lib.Case{Coq: coq, Class: class, Obs: map[string]interface{}{"trace": strings.Join(trace, " "), "last": last, "stuck": w.stuck, "note": w.note},
 		Nontrivial: peer, Key: fmt.Sprintf("%v|%d|%s", in.Ops, in.World, in.Suite)}
 }
 
